@@ -127,7 +127,11 @@ whenever the page heap holds a well-formed tree `t` and the levels insert succee
 heap insert - `insertLeaf` / `insertInternal` with their leaf splits, separator propagation,
 internal splits and root growth on pages addressed by offset - returns the root of `t'`, leaves the
 heap holding `t'`, which is well formed again, advances the allocation frontier exactly as the
-levels model says, and leaves every other tree in the file as it was. -/
+levels model says, and leaves every other tree in the file as it was.
+The outcome is `.ok`: in particular none of the `.unmodelled` outcomes of `insertLeaf` is reached - not
+the insertion inside a leaf, not the split of a leaf that is not the rightmost, and not the append to a
+leaf that has a right sibling (the node object the code may have split before, where it computes a wrong
+physical slot): `C11_append_never_meets_a_split_node` says this on its own. -/
 theorem C11_heap_insert_is_levels_insert (s : Store) (t : Levels) (key lsn : Nat) (value : Bytes)
     (hH : Holds s t) (hI : Inv t s.hdr.nextFree) (hdepth : t.inner.length ≤ treeFuel)
     (t' : Levels) (nf' : Nat) (h : insertAppend t key lsn value s.hdr.nextFree = .ok (t', nf')) :
@@ -135,6 +139,37 @@ theorem C11_heap_insert_is_levels_insert (s : Store) (t : Levels) (key lsn : Nat
       Holds s' t' ∧ Inv t' s'.hdr.nextFree ∧ s'.hdr.nextFree = nf' ∧ s.hdr.nextFree ≤ s'.hdr.nextFree ∧
       ∀ u, Holds s u → (∀ o ∈ offs u, o < s.hdr.nextFree ∧ o ∉ offs t) → Holds s' u :=
   insertKeyHeap_refines_forest s t key lsn value hH hI hdepth t' nf' h
+
+/-- **C11.append_to_a_split_leaf_is_unmodelled** (what the guard is): `btreeNode.split` leaves the moved
+cells in the node object and `insertLeafCell` takes `len(leafCells)` as the physical slot, so an append
+to a leaf object that was split and not reloaded writes an offset array like `0,1,2,3,9`.  The model has
+no physical slots: for an append (key beyond every key of the leaf, value that fits) to a leaf that has
+a right sibling - in every store, whatever the parent - it predicts nothing (`.unmodelled`). -/
+theorem C11_append_to_a_split_leaf_is_unmodelled (s : Store) (parent : Option Nat) (cur : Leaf)
+    (key lsn : Nat) (value : Bytes) (root : Nat) (hR : cur.hasR = true)
+    (hpos : ∀ x ∈ keysOfLeaf cur, x < key) (hv : value.length ≤ Mkdb.Generated.c_maxValueSize) :
+    insertLeaf parent cur key lsn value root s =
+      .unmodelled "insertLeafCell: append to a leaf that was split (physical slot)" := by
+  rw [insertLeaf_eq, findPos_beyond _ _ hpos]
+  have hlen : (keysOfLeaf cur).length = cur.cells.length := by simp [keysOfLeaf]
+  simp only [hlen, hR, bne_self_eq_false, Bool.false_eq_true, if_false, gt_iff_lt, Nat.not_lt.mpr hv, if_true]
+  rfl
+
+/-- **C11.append_never_meets_a_split_node**: in the situations C11 quantifies over - the heap holds a
+well-formed tree `t`, the key is beyond every stored key (the levels insert succeeds) - the guard of
+`C11_append_to_a_split_leaf_is_unmodelled` is never hit: the leaf the insert is routed to is the last leaf of
+the tree, it has no right sibling (a node that was split has one, and is never the rightmost again: after a
+split the rightmost node is the new one), and the heap insert does not end `.unmodelled`.  For internal nodes
+the same follows: a separator is only appended to the ancestors of that leaf. -/
+theorem C11_append_never_meets_a_split_node (s : Store) (t : Levels) (key lsn : Nat) (value : Bytes)
+    (hH : Holds s t) (hI : Inv t s.hdr.nextFree) (hdepth : t.inner.length ≤ treeFuel)
+    (t' : Levels) (nf' : Nat) (h : insertAppend t key lsn value s.hdr.nextFree = .ok (t', nf')) :
+    (∀ lpre last d, t.leaves = lpre ++ [(last, d)] → last.hasR = false) ∧
+    (∀ w, insertKeyHeap ⟨rootOff t⟩ key lsn value s ≠ .unmodelled w) := by
+  refine ⟨fun lpre last d hpre => last_hasR_of_chain hI.chain hpre, fun w hw => ?_⟩
+  obtain ⟨s', e, _⟩ := insertKeyHeap_refines s t key lsn value hH hI hdepth t' nf' h
+  rw [e] at hw
+  cases hw
 
 /-- **C11.heap_insert_refusals**: a duplicate key or an oversized row is refused by the heap insert
 exactly when the levels insert refuses it, and nothing the engine can see changes. -/
@@ -323,6 +358,17 @@ theorem C11_every_history_with_flushes_and_reloads (ops : List FROp) (s : Store)
   intro c hc
   obtain ⟨s'', l, _, e2, _, hv, _, hfind⟩ := findLeaf_key s' _ _ h'.holds h'.inv hdepth c.key
   exact ⟨s'', l, by rw [hr]; exact e2, hfind c hc rfl, hv⟩
+
+/-- …hence in every history of `C11_every_history_with_flushes_and_reloads` (ascending insert keys, value
+changes, deletions, flushes in any write order, reloads) no operation is `.unmodelled`: no append ever goes
+to a leaf that has a right sibling, i.e. to a node object that was split. -/
+theorem C11_append_never_meets_a_split_node_in_a_history (ops : List FROp) (s : Store) (t : Levels)
+    (h : HeapInv s t) (hok : RunOKF (t, s.hdr.nextFree) ops) :
+    ∀ w, heapRunF (rootOff t) ops s ≠ .unmodelled w := by
+  intro w hw
+  obtain ⟨s', root', e, _⟩ := heapRunF_refines ops s t h hok
+  rw [e] at hw
+  cases hw
 
 /-- **C11.flushes_and_reloads_change_nothing_logical**: the tree at the end of a history with flushes and
 reloads (`runF`, the tree the heap holds by `C11_every_history_with_flushes_and_reloads`) is, up to dirty
